@@ -181,6 +181,21 @@ def check(ctx, build=None):
             if bad and not any(x["name"].startswith("tuple:") for x in build.broken):
                 build.broken.append({"kind": "correspondence", "name": "tuple: Model.TupleAssign.guard vs the multiple assignments goose accepts",
                                      "detail": json.dumps([{k: v for k, v in b.items() if k != "emitted"} for b in (wrongly_accepted or bad)[:2]])[:2500]})
+        # ---- the model of conversions against the real translator: every conversion Go allows over a universe of predeclared and defined
+        #      types is rejected / the identity / to_u<w> / StringToBytes / StringFromBytes exactly as Model.Conv.decide says
+        #      (Props/C02Conv.conv_reject_or_faithful is about that decision)
+        import convcorr
+        cst, cbad = convcorr.run(scratch)
+        for k, v in cst.items():
+            stats[k] += v
+        if cbad:
+            build.broken.append({"kind": "correspondence", "name": "conv: Model.Conv.decide vs what goose does with each conversion", "detail": json.dumps(cbad[:6])[:2500]})
+            # a conversion the model rejects or changes, and goose passes through unchanged, is a wrong translation the theorem excluded
+            loose = [b for b in cbad if b["goose"] == "identity" and b["model"] != "identity"]
+            if loose:
+                b = loose[0]
+                viol("C02: goose translates a conversion as the identity where the model of the translator (proved faithful) rejects it or applies an operation",
+                     {"proto": "c02-conv", "conversion": b["conversion"], "to": b["to"], "from": b["from"], "spelling": b["spelling"]}, {"model_decision": b["model"]}, {"goose": b["goose"]})
         # ---- subset programs with one catalogue statement spliced in at a random position
         import c02splice
         for res in c02splice.run(ctx, scratch, known):
